@@ -8,6 +8,11 @@ def run(ctx):
     r = ctx.model_check("MC_BeaconReshare", "MC_BeaconReshare_race.cfg", expect_ok=False, timeout=300)
     ctx.notes.append("MC_BeaconReshare_race (vault switch may run late): %s (named deviation F42; replayed gated as scenario reshare-switch-race)"
                      % (r.violated or "holds"))
+    # membership-changing resharings (BeaconMembers.tla): joiners run with the new share before the transition,
+    # leavers are never told, share indices shift; shapes as in the network scenarios reshare-<shape>
+    shapes = ["add1", "remove1", "replace1", "replacefirst"]
+    for sh in ([shapes[ctx.seed % 4], shapes[(ctx.seed + 1) % 4]] if q else shapes):
+        ctx.model_check("MC_BeaconMembers", "MC_BeaconMembers_%s_%s.cfg" % (sh, "safety" if q else "live"), timeout=1500)
     if not q:
         ctx.model_check("MC_BeaconReshare", "MC_BeaconReshare_tup.cfg", timeout=1500)        # liveness, threshold up
         r2 = ctx.model_check("MC_BeaconReshare", "MC_BeaconReshare_racelive.cfg", expect_ok=False, timeout=1500)
